@@ -36,7 +36,7 @@ def shards(tier):
 def case_st(draw):
     variant = draw(st.sampled_from(["plain", "files", "includes"]))
     opts = {"plain": dict(max_files=1), "files": dict(max_files=3), "includes": dict(max_files=2, includes=True)}[variant]
-    prog = draw(gen.program_st(const_addr=True, locals=True, skip=True, **opts))
+    prog = draw(gen.program_st(dyn_regs=True, const_addr=True, locals=True, skip=True, **opts))
     s1 = draw(gen.style_st())
     s2 = draw(gen.style_st())
     prog["meta"]["variant"] = variant
